@@ -309,12 +309,17 @@ THOROUGH = [
     ("PC", "core6", 2, ("empty", "used"), ("thr",)),
     ("PC", "core4", 3, ("empty", "used"), ("ctx", "aio")),
     ("S3", "core6", 2, ("empty", "used"), ("ctx",)),
-    ("S3", "core4", 2, ("empty", "used"), ("thr", "aio")),
+    ("S3", "core4", 2, ("empty", "used"), ("aio",)),
+    ("S3", "core4", 2, ("used",), ("thr",)),
     ("S3", "writes", 1, ("empty", "used"), ("ctx", "thr", "aio")),
 ]
 # line level: (alphabet, ops per context, starts, preemption bound); two sibling threads
-LINE_QUICK = [("fullline", 1, ("used-nolist",), 2), ("fullline", 1, ("empty",), 1), ("core4", 2, ("used-nolist",), 2)]
-LINE_THOROUGH = [("fullline", 1, ("empty", "used-nolist"), 2), ("line8", 2, ("empty", "used-nolist"), 2)]
+LINE_QUICK = [("fullline", 1, ("used-nolist",), 2), ("fullline", 1, ("empty",), 1), ("core4", 2, ("used-nolist",), 1)]
+LINE_THOROUGH = [("fullline", 1, ("empty", "used-nolist"), 2), ("core4", 2, ("empty", "used-nolist"), 2),
+                 ("line8", 2, ("used-nolist",), 1)]
+# measured CPU seconds per program (all its schedules), only used to size shards
+LINE_COST = {("fullline", 1, 2): 0.5, ("fullline", 1, 1): 0.1, ("core4", 2, 2): 0.47, ("core4", 2, 1): 0.07,
+             ("line8", 2, 1): 0.27}
 
 
 def programs(arr, alphabet, k):
@@ -459,7 +464,7 @@ def run_op_unit(unit, R, tier):
         writers = sum(1 for p in progs if any(o in WRITE_OPS for o in p))
         if writers >= 2:
             R.nontrivial((arr, sname, progs))
-        if n % 5000 == 1:
+        if shard == 0 and n == 3:     # one sample per family (shard 0 of each), not the trivial first program
             R.sample({"level": "op", "real": real_name, "arrangement": arr, "start": STARTS[sname],
                       "programs": [list(p) for p in progs],
                       "merge_orders": ilv.count_schedules([len(p) for p in progs], spawn_of)})
@@ -556,7 +561,7 @@ def run_line_unit(unit, R, tier):
         n += 1
         if sum(1 for p in progs if any(o in WRITE_OPS for o in p)) >= 2:
             R.nontrivial(("line", sname, progs))
-        if n % 40 == 1:
+        if shard == 0 and n == 2:
             R.sample({"level": "line", "start": STARTS[sname], "programs": [list(p) for p in progs],
                       "preemption_bound": bound, "executions": st["executions"],
                       "scheduling_decisions": st["points"], "per_level": st["per_level"]})
@@ -583,7 +588,7 @@ def units(tier):
                 u.append((cost / ns, [("op", arr, alphabet, k, sname, real, i, ns) for i in range(ns)]))
     for alphabet, k, starts, bound in (LINE_THOROUGH if tier == "thorough" else LINE_QUICK):
         nprog = n_programs("S2", alphabet, k)
-        per_prog = {0: 3, 1: 15, 2: 90}[bound] * (1 if k == 1 else 0.8) * 3000.0
+        per_prog = LINE_COST[(alphabet, k, bound)] * 1e6
         for sname in starts:
             cost = nprog * per_prog
             ns = max(1, min(nprog, int(cost / per_unit) + 1))
